@@ -74,6 +74,7 @@ class Run:
         self.findings = base.open_findings(PROP)
         self.known: dict[str, str] = {}
         self.nstates: dict[str, int] = {}
+        self.sigs: dict = {}
 
     def close(self):
         if self.child:
@@ -109,6 +110,7 @@ class Run:
         expected = self.model[target][generation - 1]
         persistent = set(self.persistent(target))
         seen = collections.Counter()
+        sigs: dict = {}
         for rec in result['log']:
             if rec.get('event') != 'apply' or rec['actor'] not in persistent:
                 continue
@@ -121,6 +123,7 @@ class Run:
             if state['name'] != name:
                 raise base.Violation('foreign-state', f'{where}: actor {name} received the state of actor '
                                                       f'{state["name"]} (chain {state["chain"]})', mode=mode)
+            sigs.setdefault(name, set()).add(json.dumps(state.get('sig')))
             if state['chain'] != expected[name]:
                 raise base.Violation('wrong-generation-state', f'{where}: actor {name} received training chain '
                                                                f'{state["chain"]}, generation {generation} holds '
@@ -133,6 +136,19 @@ class Run:
         missing = persistent - set(seen)
         if missing:
             raise base.Violation('actor-not-run', f'{where}: stateful actors {sorted(missing)} never ran', mode=mode)
+        # copies of one actor (a scope expanded twice) are told apart by the data-dependent signature in their state:
+        # the set of signatures per actor name must be the one seen when that generation was trained
+        key = (target, generation)
+        if mode == 'train':
+            self.sigs[key] = {n: sorted(v) for n, v in sigs.items()}
+        elif key in self.sigs:
+            got = {n: sorted(v) for n, v in sigs.items()}
+            if got != self.sigs[key]:
+                name = next(n for n in got if got[n] != self.sigs[key].get(n))
+                raise base.Violation('foreign-state', f'{where}: the copies of actor {name} received states with '
+                                                      f'signatures {got[name]}, the training of generation {generation} '
+                                                      f'produced {self.sigs[key].get(name)} (a state of another copy)',
+                                     mode=mode)
         if result['nstates'] != len(self.model[target][0].get('__nstates__', [None] * result['nstates'])):
             pass
 
